@@ -1,5 +1,335 @@
-//! Scheduler implementation (placeholder until the scheduled drivers land).
+//! Baton-passing scheduler: real OS threads, exactly one runnable at a time.
+//! Every a10 hook point and every simulated system call is a scheduling
+//! point; the schedule is part of the generated case (a tape of choices; when
+//! it is exhausted the scheduler continues round-robin so every run
+//! terminates or ends in a detected no-runnable-thread state).
 
-use super::Kind;
+use std::sync::atomic::Ordering;
+use std::sync::{Condvar, Mutex};
 
-pub fn yield_point(_kind: Kind, _addr: usize) {}
+use super::{ACTIVE, Kind};
+
+#[derive(Copy, Clone, Debug, PartialEq, Eq)]
+pub enum Reason {
+    /// Blocked in io_uring_enter on this ring descriptor.
+    Ring(i32),
+    /// Waiting for a token (waker) to be signalled.
+    Token(u64),
+}
+
+#[derive(Copy, Clone, Debug, PartialEq, Eq)]
+enum TState {
+    Runnable,
+    Parked(Reason),
+    Finished,
+}
+
+struct State {
+    threads: Vec<TState>,
+    current: usize,
+    tape: Vec<u16>,
+    pos: usize,
+    steps: usize,
+    budget: usize,
+    /// Set when the run is over (stuck, budget, or all finished): threads run
+    /// free, parks return immediately.
+    aborted: bool,
+    stuck: bool,
+    over_budget: bool,
+    switches: usize,
+    trace: Vec<(u8, String)>,
+    rr: usize,
+    record: bool,
+    /// Signalled tokens (so a notify before the park is not lost).
+    tokens: Vec<u64>,
+    /// Points seen per thread between two switches, for non-triviality rules.
+    interesting_switches: usize,
+    /// Who was parked (and why) when the run got stuck.
+    stuck_snapshot: Vec<(usize, String)>,
+    /// Thread is spinning on a mutex held by somebody else.
+    spinning: Vec<bool>,
+}
+
+impl State {
+    fn mark_stuck(&mut self) {
+        self.stuck = true;
+        self.aborted = true;
+        self.stuck_snapshot = self.threads.iter().enumerate().filter_map(|(i, t)| if let TState::Parked(r) = t { Some((i, format!("{r:?}"))) } else { None }).collect();
+        ACTIVE.store(false, Ordering::SeqCst);
+    }
+}
+
+static STATE: Mutex<Option<State>> = Mutex::new(None);
+static CV: Condvar = Condvar::new();
+
+thread_local! {
+    static TID: std::cell::Cell<usize> = const { std::cell::Cell::new(usize::MAX) };
+}
+
+fn lock() -> std::sync::MutexGuard<'static, Option<State>> {
+    STATE.lock().unwrap_or_else(|e| e.into_inner())
+}
+
+fn me() -> usize {
+    TID.with(std::cell::Cell::get)
+}
+
+#[derive(Clone, Debug, Default)]
+pub struct Outcome {
+    /// No runnable thread although some thread was still parked.
+    pub stuck: bool,
+    pub over_budget: bool,
+    pub switches: usize,
+    pub interesting_switches: usize,
+    pub steps: usize,
+    pub trace: Vec<(u8, String)>,
+    pub parked_at_end: Vec<(usize, String)>,
+    pub panics: Vec<String>,
+}
+
+impl State {
+    /// Pick the next thread to run among the runnable ones; `exclude` must
+    /// not be chosen (it is blocked on a mutex and has to hand the baton away).
+    fn pick(&mut self, exclude: Option<usize>) -> Option<usize> {
+        let runnable: Vec<usize> = self.threads.iter().enumerate().filter(|(i, t)| **t == TState::Runnable && Some(*i) != exclude).map(|(i, _)| i).collect();
+        if runnable.is_empty() {
+            return None;
+        }
+        let choice = if self.pos < self.tape.len() {
+            let t = self.tape[self.pos];
+            self.pos += 1;
+            runnable[((t as usize) * runnable.len()) >> 16]
+        } else {
+            // Round-robin in thread-id order after the current thread,
+            // preferring threads that are not spinning on a held mutex (two
+            // spinning threads handing the baton to each other would starve
+            // the holder).
+            let after = |cands: &[usize]| -> Option<usize> { cands.iter().copied().find(|t| *t > self.current).or(cands.first().copied()) };
+            let calm: Vec<usize> = runnable.iter().copied().filter(|t| !self.spinning[*t]).collect();
+            self.rr += 1;
+            after(&calm).or(after(&runnable)).unwrap()
+        };
+        Some(choice)
+    }
+}
+
+fn interesting(kind: Kind) -> bool {
+    !matches!(kind, Kind::Syscall)
+}
+
+/// A scheduling point of the running thread.
+pub fn yield_point(kind: Kind, addr: usize) {
+    let tid = me();
+    if tid == usize::MAX {
+        return; // Not a scheduled thread.
+    }
+    let mut guard = lock();
+    let Some(st) = guard.as_mut() else { return };
+    if st.aborted {
+        return;
+    }
+    st.steps += 1;
+    if st.record && st.trace.len() < 4000 {
+        st.trace.push((tid as u8, format!("{kind:?}@{:x}", addr & 0xfff)));
+    }
+    if st.steps > st.budget {
+        st.over_budget = true;
+        st.aborted = true;
+        ACTIVE.store(false, Ordering::SeqCst);
+        CV.notify_all();
+        return;
+    }
+    let blocked = matches!(kind, Kind::A10(a10::verif::Point::LockBlocked));
+    st.spinning[tid] = blocked;
+    let next = st.pick(if blocked { Some(tid) } else { None });
+    match next {
+        None => {
+            if blocked {
+                // Every other thread is parked or finished while we wait for a
+                // mutex: nobody can release it.
+                st.mark_stuck();
+                CV.notify_all();
+            }
+        }
+        Some(n) if n == tid => {}
+        Some(n) => {
+            st.switches += 1;
+            if interesting(kind) {
+                st.interesting_switches += 1;
+            }
+            st.current = n;
+            CV.notify_all();
+            while guard.as_ref().is_some_and(|s| s.current != tid && !s.aborted) {
+                guard = CV.wait(guard).unwrap_or_else(|e| e.into_inner());
+            }
+        }
+    }
+}
+
+/// Park the running thread until `reason` is notified. Returns false if the
+/// run was aborted (stuck / budget) instead.
+pub fn park(reason: Reason) -> bool {
+    let tid = me();
+    if tid == usize::MAX {
+        return false;
+    }
+    let mut guard = lock();
+    let Some(st) = guard.as_mut() else { return false };
+    if st.aborted {
+        return false;
+    }
+    if let Reason::Token(t) = reason {
+        if let Some(p) = st.tokens.iter().position(|x| *x == t) {
+            st.tokens.remove(p);
+            return true;
+        }
+    }
+    st.threads[tid] = TState::Parked(reason);
+    if st.record && st.trace.len() < 4000 {
+        st.trace.push((tid as u8, format!("park {reason:?}")));
+    }
+    match st.pick(None) {
+        Some(n) => {
+            st.switches += 1;
+            st.current = n;
+            CV.notify_all();
+        }
+        None => {
+            // Nobody can run: lost wake-up / deadlock.
+            st.mark_stuck();
+            CV.notify_all();
+            return false;
+        }
+    }
+    loop {
+        guard = CV.wait(guard).unwrap_or_else(|e| e.into_inner());
+        let Some(st) = guard.as_mut() else { return false };
+        if st.aborted {
+            return false;
+        }
+        if st.current == tid && st.threads[tid] == TState::Runnable {
+            return true;
+        }
+    }
+}
+
+/// Make threads parked for `reason` runnable again (they still have to get
+/// the baton). A token notified while nobody waits for it is remembered.
+pub fn notify(reason: Reason) {
+    if !ACTIVE.load(Ordering::Relaxed) {
+        return;
+    }
+    let mut guard = lock();
+    let Some(st) = guard.as_mut() else { return };
+    let mut any = false;
+    for t in st.threads.iter_mut() {
+        if *t == TState::Parked(reason) {
+            *t = TState::Runnable;
+            any = true;
+        }
+    }
+    if !any {
+        if let Reason::Token(t) = reason {
+            if !st.tokens.contains(&t) {
+                st.tokens.push(t);
+            }
+        }
+    }
+}
+
+fn point_fn(p: a10::verif::Point, addr: usize) {
+    if ACTIVE.load(Ordering::Relaxed) {
+        yield_point(Kind::A10(p), addr);
+    }
+}
+
+fn block_fn(fd: i32) -> crate::sim::WaitOutcome {
+    if park(Reason::Ring(fd)) { crate::sim::WaitOutcome::Progress } else { crate::sim::WaitOutcome::Interrupted }
+}
+
+/// Run `threads` under the scheduler with the given choice tape.
+pub fn run(tape: Vec<u16>, budget: usize, record: bool, threads: Vec<Box<dyn FnOnce() + Send>>) -> Outcome {
+    let n = threads.len();
+    {
+        let mut guard = lock();
+        *guard = Some(State {
+            threads: vec![TState::Runnable; n],
+            current: 0,
+            tape,
+            pos: 0,
+            steps: 0,
+            budget,
+            aborted: false,
+            stuck: false,
+            over_budget: false,
+            switches: 0,
+            trace: Vec::new(),
+            rr: 0,
+            record,
+            tokens: Vec::new(),
+            interesting_switches: 0,
+            stuck_snapshot: Vec::new(),
+            spinning: vec![false; n],
+        });
+    }
+    a10::verif::install_point(Some(point_fn));
+    crate::sim::set_block_fn(Some(block_fn));
+    ACTIVE.store(true, Ordering::SeqCst);
+    let mut handles = Vec::new();
+    for (tid, f) in threads.into_iter().enumerate() {
+        handles.push(std::thread::spawn(move || {
+            TID.with(|t| t.set(tid));
+            // Wait for the baton.
+            {
+                let mut guard = lock();
+                while guard.as_ref().is_some_and(|s| s.current != tid && !s.aborted) {
+                    guard = CV.wait(guard).unwrap_or_else(|e| e.into_inner());
+                }
+            }
+            let r = crate::runner::catch(f);
+            // Finished: hand the baton on.
+            let mut guard = lock();
+            if let Some(st) = guard.as_mut() {
+                st.threads[tid] = TState::Finished;
+                if !st.aborted {
+                    match st.pick(None) {
+                        Some(nx) => {
+                            st.current = nx;
+                        }
+                        None => {
+                            if st.threads.iter().any(|t| matches!(t, TState::Parked(_))) {
+                                st.mark_stuck();
+                            }
+                            st.aborted = true;
+                            ACTIVE.store(false, Ordering::SeqCst);
+                        }
+                    }
+                }
+                CV.notify_all();
+            }
+            r.err().map(|(m, l)| format!("{l}: {m}"))
+        }));
+    }
+    let mut panics = Vec::new();
+    for h in handles {
+        match h.join() {
+            Ok(Some(p)) => panics.push(p),
+            Ok(None) => {}
+            Err(_) => panics.push("thread panicked outside catch".into()),
+        }
+    }
+    ACTIVE.store(false, Ordering::SeqCst);
+    a10::verif::install_point(None);
+    crate::sim::set_block_fn(None);
+    let st = lock().take().unwrap();
+    Outcome {
+        stuck: st.stuck,
+        over_budget: st.over_budget,
+        switches: st.switches,
+        interesting_switches: st.interesting_switches,
+        steps: st.steps,
+        trace: st.trace,
+        parked_at_end: st.stuck_snapshot,
+        panics,
+    }
+}
